@@ -5,7 +5,7 @@
    optimum, coarser discretisation only loses utility) is NOT proved. *)
 From Coq Require Import ZArith Bool List.
 Import ListNotations.
-From Verif Require Import Model.Val Model.Strl Proofs.StrlP Proofs.StrlP2 Proofs.StrlP3.
+From Verif Require Import Model.Val Model.Strl Proofs.StrlP Proofs.StrlP2 Proofs.StrlP3 Proofs.StrlP4.
 Open Scope Z_scope.
 
 (* capacity: for every tree whose leaf start times are congruent modulo the granularity, every
@@ -63,6 +63,30 @@ Theorem C20_max_at_most_one : forall pt now g e cs a n ks,
 Proof. exact max_at_most_one. Qed.
 Print Assumptions C20_max_at_most_one.
 
+(* Max at the level of the read-back: all placements named after children of one Max carry one name,
+   and the read-back has one placement per name (node identifiers distinct) *)
+Theorem C20_max_placements : forall pt now g e cs a,
+  compile pt now g e = Ok cs -> sat cs a = true -> unique_ids e -> max_ok e (populate pt now a e).
+Proof. exact max_placements. Qed.
+Print Assumptions C20_max_placements.
+Theorem C20_one_placement_per_name : forall pt now a e, NoDup (map pl_name (populate pt now a e)).
+Proof. exact populate_names_nodup. Qed.
+Print Assumptions C20_one_placement_per_name.
+
+(* LessThan whose children are a Choose or a Max of Chooses (the shape the Python front-end emits): if
+   the LessThan was lowered with utility, a satisfied Choose of the first child ends before a satisfied
+   Choose of the second child starts.  PARTIAL: the statement for arbitrary children is false (F14). *)
+Theorem C20_lessthan_partial : forall pt now g e cs a n x y,
+  compile pt now g e = Ok cs -> sat cs a = true -> wf_times e ->
+  In (LessThan n x y) (subs e) -> is_pu (parse pt now (LessThan n x y)) = true ->
+  forall n1 ps1 am1 s1 d1 u1 n2 ps2 am2 s2 d2 u2,
+    inside (Choose n1 ps1 am1 s1 d1 u1) x -> inside (Choose n2 ps2 am2 s2 d2 u2) y ->
+    is_pu (parse pt now (Choose n1 ps1 am1 s1 d1 u1)) = true -> a (VInd n1) = 1 ->
+    is_pu (parse pt now (Choose n2 ps2 am2 s2 d2 u2)) = true -> a (VInd n2) = 1 ->
+    s1 + d1 <= s2.
+Proof. exact lessthan_simple. Qed.
+Print Assumptions C20_lessthan_partial.
+
 (* finding F14: the LessThan ordering of the read-back placements is NOT guaranteed in general *)
 Theorem C20_lessthan_refuted :
   exists pt now g e cs a, compile pt now g e = Ok cs /\ sat cs a = true /\ alignedb g e = true /\
@@ -81,3 +105,19 @@ Theorem C20_monitor_exact : forall pt now e pls,
   placements_exactb pt now e pls = true <-> placements_exact pt now e pls.
 Proof. exact placements_exactb_iff. Qed.
 Print Assumptions C20_monitor_exact.
+Theorem C20_monitor_capacity : forall pt e pls, capacity_okb pt e pls = true <-> capacity_at_starts pt e pls.
+Proof. exact capacity_okb_iff. Qed.
+Print Assumptions C20_monitor_capacity.
+Theorem C20_monitor_max : forall e pls, max_okb e pls = true <-> max_ok e pls.
+Proof. exact max_okb_iff. Qed.
+Print Assumptions C20_monitor_max.
+Theorem C20_monitor_lessthan : forall e pls, lt_okb e pls = true <-> lt_ok e pls.
+Proof. exact lt_okb_iff. Qed.
+Print Assumptions C20_monitor_lessthan.
+(* the structure monitor holds on the model's own read-back (so a failure on the C++ read-back is a
+   difference of the implementation, never of the model) *)
+Theorem C20_structure_monitor_holds : forall pt now g e cs a,
+  compile pt now g e = Ok cs -> sat cs a = true -> unique_ids e ->
+  structure_okb pt now e (populate pt now a e) = true.
+Proof. exact structure_monitor_holds. Qed.
+Print Assumptions C20_structure_monitor_holds.
